@@ -312,7 +312,9 @@ func Run(j *job.Job, s *job.Sink) {
 				wantErr = "cycle"
 			case 2:
 				a := all[r.Intn(len(all))]
-				a.bq = append(a.bq, "nosuchidentity")
+				// first, last or somewhere between the bases that are fine
+				at := r.Intn(len(a.bq) + 1)
+				a.bq = append(a.bq[:at], append([]string{"nosuchidentity"}, a.bq[at:]...)...)
 				wantErr = "dangling-base"
 			default:
 				a := all[r.Intn(len(all))]
@@ -320,7 +322,8 @@ func Run(j *job.Job, s *job.Sink) {
 				for _, p := range a.file.imports {
 					q = p + ":nosuchidentity"
 				}
-				a.bq = append(a.bq, q)
+				at := r.Intn(len(a.bq) + 1)
+				a.bq = append(a.bq[:at], append([]string{q}, a.bq[at:]...)...)
 				wantErr = "dangling-prefixed-base"
 			}
 		}
